@@ -42,6 +42,7 @@ declare_ghost("g_res", z3.ArraySort(Int, A_II))  # result list of `call` (conten
 declare_ghost("g_reslen", A_II)
 declare_ghost("st", z3.ArraySort(Int, A_II))  # st[td][t]: 0 untouched, 1 rejected, 2 executed, 3 raised
 declare_ghost("ac", z3.ArraySort(Int, A_II))  # ac[td][t]: how many times _activate(td, t) was entered
+declare_ghost("ares", z3.ArraySort(Int, A_II))  # ares[td][t]: what the last _activate(td, t) returned as result
 declare_ghost("depth", Int)
 declare_ghost("ncb", Int)  # callback-level log cursor: one record per CallbackWrapper invocation
 declare_ghost("cb_who", A_II)  # which wrapper
@@ -292,6 +293,21 @@ td_model = ClassModel(
             "kwargs": "dict[str,Val]"},
 )
 td_model.ctor = dataclass_ctor("statemachine.event_data", "TriggerData", {})
+
+
+def td_eq(ex, path, a, b):
+    """@dataclass __eq__: same class and field-wise equal (machine, event, model, args, kwargs);
+    args/kwargs compared as opaque references here (equal references are equal values)."""
+    if not (isinstance(b, O) and b.cls == "TriggerData"):
+        return z3.BoolVal(False)
+    f = lambda n, x: path.sel("TriggerData." + n, x.e)  # noqa: E731
+    return z3.Or(a.e == b.e, z3.And(
+        f("machine", a) == f("machine", b), f("model", a) == f("model", b),
+        path.sel("Event.id", f("event", a)) == path.sel("Event.id", f("event", b)),
+        f("args", a) == f("args", b), f("kwargs", a) == f("kwargs", b)))
+
+
+td_model.eq_fn = td_eq
 ed_model = ClassModel(
     "EventData",
     fields={"trigger_data": "TriggerData", "transition": "Transition", "state": "Opt[State]",
@@ -455,7 +471,7 @@ ENV_MODIFIES = [
     "deque.arr", "deque.tail", "deque.head", "Model.state",
     "ghost.ntrig", "ghost.trig_log", "ghost.trig_res",
     "ghost.ng", "ghost.g_key", "ghost.g_ms", "ghost.g_ks", "ghost.g_kind", "ghost.g_ok", "ghost.g_res",
-    "ghost.g_reslen", "ghost.st", "ghost.ac", "ghost.ncb", "ghost.cb_who", "ghost.cb_ms", "ghost.cb_ks",
+    "ghost.g_reslen", "ghost.st", "ghost.ac", "ghost.ares", "ghost.ncb", "ghost.cb_who", "ghost.cb_ms", "ghost.cb_ks",
     "idict.has", "idict.val", "IState._state+", "IState._machine+",
     "list.arr+", "list.len+", "dict.has", "dict.val", "CallbacksExecutor.items+", "CallbacksExecutor.items_already_seen+",
     "TriggerData.machine+", "TriggerData.event+",
@@ -486,14 +502,16 @@ def env_effect(s0, s, glog_grows_by=None):
         "env:rtc-model-state-kept": z3.Implies(rl, mstate(s) == mstate(s0)),
         "env:rtc-no-trigger": z3.Implies(rl, z3.And(
             s.g("ntrig") == s0.g("ntrig"), s.g("trig_log") == s0.g("trig_log"),
-            s.g("trig_res") == s0.g("trig_res"), s.g("st") == s0.g("st"), s.g("ac") == s0.g("ac"))),
+            s.g("trig_res") == s0.g("trig_res"), s.g("st") == s0.g("st"), s.g("ac") == s0.g("ac"),
+            s.g("ares") == s0.g("ares"))),
         "env:sent-log-append-only": z3.And(qt(s) >= qt(s0), prefix_kept(qarr(s0), qarr(s), qt(s0), "esl")),
         "env:nonrtc-balanced": z3.Implies(z3.Not(rtc(s0)), z3.And(
             qt(s) - qh(s) == qt(s0) - qh(s0), qh(s) >= qh(s0), qt(s) >= qt(s0), qh(s) <= qt(s))),
         "env:nonrtc-old-rows-kept": z3.Implies(z3.Not(rtc(s0)), z3.And(
             z3.ForAll([x], z3.Implies(z3.And(x >= 0, x < al0), z3.And(
                 z3.Select(s.g("st"), x) == z3.Select(s0.g("st"), x),
-                z3.Select(s.g("ac"), x) == z3.Select(s0.g("ac"), x)))),
+                z3.Select(s.g("ac"), x) == z3.Select(s0.g("ac"), x),
+                z3.Select(s.g("ares"), x) == z3.Select(s0.g("ares"), x)))),
             s.g("ntrig") >= s0.g("ntrig"),
             prefix_kept(s0.g("trig_log"), s.g("trig_log"), s0.g("ntrig"), "tl"),
         )),
